@@ -14,28 +14,33 @@ for a in args:
         fps.setdefault(fn,[])
         if h not in fps[fn]: fps[fn].append(h)
 PINNED_KINDS={"quo","div","sub","newcoin","panic","index"}
-rows=re.findall(r'^  \("([^"]*)", "([^"]*)", "([^"]*)", "([^"]*)"',src,re.M)
 cnt=collections.OrderedDict()
-for f,fn,key,kind in rows:
-    cnt[(fn,kind)]=cnt.get((fn,kind),0)+1
+for a in args:   # site counts: the maximum over all accepted trees (a pending fix may add a function)
+    c1={}
+    for f,fn,key,kind in re.findall(r'^  \("([^"]*)", "([^"]*)", "([^"]*)", "([^"]*)"',open(a).read(),re.M):
+        c1[(fn,kind)]=c1.get((fn,kind),0)+1
+    for k,v in c1.items():
+        cnt[k]=max(cnt.get(k,0),v)
 covered={
- ("x/gov.processProposal","panic"):"Halt.process_quorum (IsQuorum error => panic): reachable, findings votes-gt-voters / quorum-gt-1; the 'proposal was expected to exist' panic is unreachable (queue entries are written together with the proposal, proposals are never deleted)",
- ("x/gov.processPoll","panic"):"Halt.process_quorum: reachable, finding processPoll:votes-gt-voters; GetPoll error unreachable (polls are never deleted)",
+ ("x/gov.processProposal","panic"):"the IsQuorum error no longer panics (fix 121883e, flag gov_proposal_quorum_error_panics = false, C06_proposal_quorum_on_this_tree full strength); remaining panic 'proposal was expected to exist': queue entries are written together with the proposal, proposals are never deleted",
+ ("x/gov.processPoll","panic"):"the IsQuorum error no longer panics (fix 121883e, C06_poll_quorum_on_this_tree full strength); GetPoll error unreachable (polls are never deleted)",
  ("x/spending/keeper.Keeper.EndBlocker","quo"):"Halt.spend_pool_step: guarded since fix 2d6ac44 (denominator positive), C06_spend_endblock_never_panics; flag spend_endblock_guarded regenerated from the tree",
  ("x/spending/keeper.Keeper.EndBlocker","newcoin"):"Halt.new_dec_coin: rate = non-negative deposit / positive denominator since fix 2d6ac44",
- ("x/spending/keeper.Keeper.ClaimSpendingPool","sub"):"Halt.claim (Coins.Sub): reachable through SpendingPoolDistribution.Apply, finding ClaimSpendingPool:neg-coin",
- ("x/spending/keeper.Keeper.ClaimSpendingPool","newcoin"):"Halt.claim (NewCoin of a negative amount): reachable with a negative beneficiary weight, same finding class neg-coin",
- ("x/spending.ApplySpendingPoolWithdrawProposalHandler.Apply","sub"):"Halt.withdraw_loop: reachable, finding Withdraw.Apply:neg-coin",
+ ("x/spending/keeper.Keeper.ClaimSpendingPool","sub"):"SafeSub + error since fix c12fc9f (flag claim_sub_unchecked = false, C06_claim_on_this_tree full strength)",
+ ("x/spending/keeper.Keeper.ClaimSpendingPool","newcoin"):"guarded since fix c12fc9f: amount.IsNegative() returns an error before NewCoin",
+ ("x/spending.ApplySpendingPoolWithdrawProposalHandler.Apply","sub"):"SafeSub + error since fix c12fc9f (flag withdraw_sub_unchecked = false, C06_withdraw_on_this_tree full strength)",
  ("x/staking/keeper.Keeper.BlockValidatorUpdates","panic"):"Halt.vend: unreachable under v_inv (staking_updates_never_panic): queues only receive keys of existing validators and validators are never deleted",
  ("x/feeprocessing/keeper.Keeper.ProcessExecutionFeeReturn","panic"):"Halt.pay_from_collector: reachable only if the fee collector cannot cover the refund (collector_shortfall_panics; depends on C04/C10 over-crediting) -- not reproduced",
  ("x/distributor/keeper.Keeper.AllocateTokensToValidator","panic"):"Halt.allocate / pay_from_collector: the payout itself is covered (allocate_never_panics) but REACHABLE once IncreasePoolRewards has paid an over-credit out of the collector first: finding AllocateTokensToValidator:insufficient-funds (C06_overcredit_shortfall_refuted)",
  ("x/distributor/keeper.Keeper.AllocateTokens","quo"):"Halt.allocate: snap period and InflationPeriod divisors; InflationPeriod >= 2629800 by the validated network properties (C19), SnapPeriod comes from genesis only (default 1000) -- zero only with a broken genesis",
- ("x/ubi/keeper.Keeper.ProcessUBIRecord","newcoin"):"Halt.ubi_mint: reachable, finding ProcessUBIRecord:neg-coin (amount >= 2^63 passes the wrapping hard-cap check)",
- ("x/ubi.ApplyUpsertUBIProposalHandler.Apply","div"):"Halt.ubi_apply: division by Period is input-only: Period = 0 panics in the dry run and fails the submission (ubi_period_zero_filtered); record.Period of stored records is therefore non-zero",
+ ("x/ubi/keeper.Keeper.ProcessUBIRecord","newcoin"):"NewIntFromUint64 since fix b963c04: the amount is never negative (flag ubi_amount_cast_int64 = false, C06_ubi_mint_on_this_tree full strength)",
+ ("x/ubi.ApplyUpsertUBIProposalHandler.Apply","div"):"no integer division left since b963c04 (kept for trees before it: input-only, filtered by the dry run)",
+ ("x/ubi.ApplyUpsertUBIProposalHandler.Apply","quo"):"Halt.ubi_apply_exact (C06_ubi_apply_on_this_tree): sdk.Int.Quo by p.Period after the explicit p.Period == 0 refusal, and by record.Period of stored records, which are only written by this handler after that refusal (genesis default record: 2592000; a genesis record with period 0 would make every UpsertUBI enactment panic -- genesis validation is C12's)",
  ("x/upgrade/keeper.Keeper.ApplyUpgradePlan","panic"):"Halt.upgrade_begin: the sanctioned halt (upgrade_halt_only_when_due); PauseProposalNotApprovedValidators errs only for a missing proposal (never deleted)",
  ("x/gov/types.ProposalRouter.ApplyProposal","panic"):"Halt.apply_proposal: 'invalid proposal type' unreachable: SubmitProposal dry-runs ApplyProposal with the same content type first (input_only_panics_filtered), routes are fixed at start-up",
 }
 over={
+ ("x/multistaking/keeper.Keeper.autocompoundRewards","sub"):"(function added by the pending fix C06-autocompound-no-panic) autoCompoundRewards is a sub-multiset of rewards by construction; runs on a cache context whose errors are discarded",
  ("x/gov.processEnactmentProposal","panic"):"unreachable: enactment queue entries are written with the proposal; proposals are never deleted",
  ("x/gov/types.ProposalRouter.AllowedAddressesDynamicProposal","panic"):"unreachable: same content type already routed at submission (state-independent, input_only_panics_filtered)",
  ("x/gov/types.ProposalRouter.QuorumDynamicProposal","panic"):"unreachable: same content type already routed at submission (state-independent)",
@@ -56,12 +61,12 @@ over={
  ("x/evidence/keeper.Keeper.HandleEquivocationEvidence","panic"):"unreachable: signing info is created when the validator joins (AfterValidatorJoined hook)",
  ("x/evidence/keeper.Keeper.HandleEquivocationEvidence","sub"):"time.Sub: no panic",
  ("x/slashing/keeper.Keeper.HandleValidatorSignature","panic"):"unreachable for votes of validators CometBFT knows through this app's updates (pubkey relation + signing info written on join); exercised by every block of the harness",
- ("x/slashing/keeper.Keeper.Jail","assert"):"not reached: after the rotation rewrites the proposal content (DESIGN #16) GetProposals panics in the codec BEFORE this assertion: finding GetProposal:any-unregistered-type (recovery-rotation histories)",
- ("x/multistaking/keeper.Keeper.IncreasePoolRewards","panic"):"autocompound payout of the whole credit from the fee collector: with stake caps summing to 1 the credit exceeds the allocation by one unit (Halt.credit_two, C06_overcredit_shortfall_refuted); on the witness the shortfall surfaces in the following AllocateTokensToValidator",
+ ("x/slashing/keeper.Keeper.Jail","assert"):"since fix fb18192 rotation stores the updated ProposalSlashValidator, so the content of a proposal of type SlashValidator has that dynamic type (recovery-rotation histories complete)",
+ ("x/multistaking/keeper.Keeper.IncreasePoolRewards","panic"):"REACHABLE: panic(err) after the autocompound re-delegation: findings IncreasePoolRewards:not-active-validator / slashed-pool / not-allowed-staking-token (pending fix C06-autocompound-no-panic); the payout of an over-credit (Halt.credit_two) surfaces in the following AllocateTokensToValidator",
  ("x/multistaking/keeper.Keeper.IncreasePoolRewards","quo"):"guarded: shareToken.Amount.IsZero() => continue",
  ("x/multistaking/keeper.Keeper.IncreasePoolRewards","sub"):"autoCompoundRewards is a sub-multiset of rewards by construction",
  ("x/multistaking/keeper.Keeper.IncreasePoolRewards","newcoin"):"non-negative products",
- ("x/multistaking/keeper.Keeper.SlashStakingPool","panic"):"REACHABLE from SlashValidator.Apply in the gov end-blocker (proposal raised by Jail, no dry run): findings SlashStakingPool:nil-deref (keeper copy without distrKeeper) and SlashStakingPool:invalid-coins (0ukex burn); slash-proposal histories",
+ ("x/multistaking/keeper.Keeper.SlashStakingPool","panic"):"reached from SlashValidator.Apply in the gov end-blocker (no dry run); since fix 27b0386 the keeper is shared and an empty burn is skipped: burn / transfer of fractions (slash in [0,1]) of module-held stake; slash-proposal histories (slash, unjail, activate, undelegate, rewards) complete",
  ("x/multistaking/keeper.Keeper.SlashStakingPool","sub"):"fractions of the pool totals (slash in [0,1])",
  ("x/multistaking/keeper.Keeper.SlashStakingPool","newcoin"):"non-negative fractions",
  ("x/layer2/keeper.Keeper.EndBlocker","panic"):"premint payout of LP tokens minted at bootstrap for exactly this purpose",
